@@ -52,6 +52,15 @@
    the guard hypothesis alone (C03_noitem_terminates; C03_noitem_termination_demo: a concrete program with
    nested tasks, a lazy future, a constant, a context and a caught exception, guard hypothesis proved for every
    fuel).
+   WITHOUT THE HYPOTHESIS no_unwind (end of the file; proofs/MachineNoUnwind.v, MachineGuardForms.v): the tree-
+   program theorems are stated again as C03_resumed_only_when_everything_awaited_is_done_guard,
+   C03_no_step_after_done_tree_guard, and the liveness fragments C03_resumed_task_returns_to_scheduler_guard (which
+   also concludes that the guard stays silent during the segment), C03_first_pass_terminates_tree_guard,
+   C03_terminates_without_flush_tree_guard (hypothesis: forall n, guard_fires P (run P n c0) = false). These forms
+   need no assumption about exceptions unwinding: FutureIsAlreadyComputed is proved unreachable for tree programs,
+   so only the runaway guard's RuntimeError can unwind through asynq's frames, and the hypothesis "the guard has not
+   fired before step n" (forall k < n, guard_fires P (run P k c0) = false; guard_fires is the boolean test at the
+   head of the _execute loop) is a decidable condition on the run.
    NOT proved (correspondence, monitors and the watchdog only): TERMINATION IN GENERAL - that for every tree
    program WITH batch items there is a fuel at which the run is done.  Items (i) "a flush makes progress" and
    (iv) "syntactic criterion for the no-flush hypothesis" of the earlier list are now proved (7b, 7c).  Still
@@ -344,3 +353,62 @@ Theorem C03_noitem_termination_demo :
   exists n, c_mode (run P n (start h s1)) = MDone (Ok (VTuple [VTuple [VInt 7; VInt 1]; VInt 9; VInt 42])).
 Proof. exact c03l_demo_terminates. Qed.
 Print Assumptions C03_noitem_termination_demo.
+(* ==== the same WITHOUT an assumption about exceptions unwinding (proofs/MachineNoUnwind.v, MachineGuardForms.v) ====
+   [no_unwind] is replaced by "the MAX_TASK_STACK_SIZE guard has not fired before step n":
+   forall k < n, guard_fires P (run P k c0) = false, where guard_fires is the boolean test at the head of the
+   _execute loop in Machine.step.  For tree programs under a pointwise service the two say the same:
+   FutureIsAlreadyComputed is proved unreachable, so the guard's RuntimeError is the only exception that can
+   unwind through asynq's frames. *)
+From Asynq Require Import proofs.MachineNoUnwind proofs.MachineGuardForms.
+Theorem C03_resumed_only_when_everything_awaited_is_done_guard : forall P, pointwise P -> forall p, tree p -> forall n t,
+  let h := fst (create [] (FTask p) (st0 P)) in
+  let s1 := snd (create [] (FTask p) (st0 P)) in
+  (forall k, (k < n)%nat -> guard_fires P (run P k (start h s1)) = false) ->
+  c_mode (run P n (start h s1)) = MResume t ->
+  exists tk, get t (c_st (run P n (start h s1))) = Some (mkFut None (KTask tk)) /\
+    forall x, In (RFut x) (leaves (tk_last tk)) -> computed x (c_st (run P n (start h s1))) = true.
+Proof. exact resume_guard_tree_guard. Qed.
+Print Assumptions C03_resumed_only_when_everything_awaited_is_done_guard.
+
+Theorem C03_no_step_after_done_tree_guard : forall P p n,
+  pointwise P -> tree p ->
+  (forall k, (k < n)%nat -> guard_fires P (run P k
+     (start (fst (create [] (FTask p) (st0 P))) (snd (create [] (FTask p) (st0 P))))) = false) ->
+  forall t i o l1 l2, snd (run_case P n [p]) = l1 ++ EvStep t i o :: l2 -> forall o', ~ In (EvDone t o') l1.
+Proof. exact tree_no_step_after_done_guard. Qed.
+Print Assumptions C03_no_step_after_done_tree_guard.
+
+(* liveness fragments: the guard is silent before the resume; it stays silent (and nothing unwinds) during the
+   segment *)
+Theorem C03_resumed_task_returns_to_scheduler_guard : forall P p n t,
+  pointwise P -> tree p ->
+  let h := fst (create [] (FTask p) (st0 P)) in
+  let s1 := snd (create [] (FTask p) (st0 P)) in
+  (forall k, (k < n)%nat -> guard_fires P (run P k (start h s1)) = false) ->
+  c_mode (run P n (start h s1)) = MResume t ->
+  exists m, c_mode (run P (n + m) (start h s1)) = MContRet /\
+    (forall k, (k < n + m)%nat -> guard_fires P (run P k (start h s1)) = false) /\
+    no_unwind P (n + m) (start h s1) /\
+    forall j, (j < m)%nat -> seg_mode t (c_mode (run P (n + j) (start h s1))) = true.
+Proof. exact resumed_returns_tree_guard. Qed.
+Print Assumptions C03_resumed_task_returns_to_scheduler_guard.
+
+(* hypothesis on MAX_TASK_STACK_SIZE: the guard never fires (a decidable condition on each configuration) *)
+Theorem C03_first_pass_terminates_tree_guard : forall P p,
+  pointwise P -> tree p ->
+  let h := fst (create [] (FTask p) (st0 P)) in
+  let s1 := snd (create [] (FTask p) (st0 P)) in
+  (forall n, guard_fires P (run P n (start h s1)) = false) ->
+  exists n, c_mode (run P n (start h s1)) = MAfterExec /\ tasks (c_st (run P n (start h s1))) = [].
+Proof. exact first_pass_terminates_tree_guard. Qed.
+Print Assumptions C03_first_pass_terminates_tree_guard.
+
+Theorem C03_terminates_without_flush_tree_guard : forall P p,
+  pointwise P -> tree p ->
+  let h := fst (create [] (FTask p) (st0 P)) in
+  let s1 := snd (create [] (FTask p) (st0 P)) in
+  (forall n, guard_fires P (run P n (start h s1)) = false) ->
+  (forall n, c_mode (run P n (start h s1)) = MAfterExec -> computed h (c_st (run P n (start h s1))) = true) ->
+  exists n o, c_mode (run P n (start h s1)) = MDone o /\ o = eval p.
+Proof. exact terminates_without_flush_tree_guard. Qed.
+Print Assumptions C03_terminates_without_flush_tree_guard.
